@@ -34,8 +34,24 @@ package pattern
 // expression then reports one sub-expression is a fact about package regexp.
 //@   assumes result1 == nil ==> nsub(result0) == 1
 
+// ---- pathname expansion (C16) ----
+//
+// Existence: every path Glob appends was just Lstat-ed under the spelling
+// that is returned (ghost file system: fs_exists(p) <=> Lstat(p) succeeds), so
+// "name/" is returned only for what Lstat("name/") accepts, i.e. directories.
+//@ func Glob
+//@   ensures[C16] pattern == "" ==> len(result0) == 0 && result1 == nil
+//@   loop `for pattern != ""` decreases[C16] len(pattern)
+//@   assert[C16] at call append#1: literal-exists: fs_exists(elem)
+
+//@ func Glob$1
+//@   assert[C16] at call append#1: match-exists: sep != "" ==> fs_exists(elem)
+
+// Hidden names: a name that begins with a period is passed on only when the
+// compiled component begins with a literal period.
 //@ func glob
 //@   requires rx != nil && fn != nil
+//@   assert[C16] at call fn#2: hidden-rule: len(n) >= 1 && hasprefix(n[0], ".") ==> hasprefix(rxsrc(rx), "^(\\.")
 
 //@ func indexSep
 //@   loop "for" decreases[C16] len(pat)
